@@ -44,6 +44,16 @@ def unfold_contraction_generic_tuple(red_op, bin_op, reduced_vars, terms):
             )
             return Contraction(red_op, v.bin_op, reduced_vars, *new_terms)
 
+        # Hoisting v's reduction is only sound if its bound variables are not
+        # also variables of the enclosing contraction or of sibling terms
+        # (e.g. when a lazy term has been substituted into itself).
+        others = terms[:i] + terms[i + 1 :]
+        if any(
+            var in reduced_vars or any(var.name in t.inputs for t in others)
+            for var in v.reduced_vars
+        ):
+            continue
+
         if red_op in (v.red_op, ops.null) and (v.red_op, bin_op) in DISTRIBUTIVE_OPS:
             new_terms = (
                 terms[:i]
